@@ -17,10 +17,12 @@ import (
 
 func NewCtx(e *Engine, fn *ssa.Function, spec *FuncSpec) *Ctx {
 	c := &Ctx{Eng: e, Fn: fn, Spec: spec, Assumed: map[string]bool{}, Inlined: map[string]bool{}, UsedSpecs: map[string]bool{},
-		instName: map[ssa.Instruction]string{}, maxPaths: 20000, maxSteps: 400000, Trace: traceFlag}
+		instName: map[ssa.Instruction]string{}, maxPaths: 20000, maxSteps: 400000, Trace: traceFlag, InitSym: map[int]*Object{}}
+	fpAbstract = false
 	if spec != nil {
 		c.BV = spec.Arith == "bv"
-		c.FP = spec.Float == "fp"
+		c.FP = spec.Float == "fp" || spec.Float == "fpuf"
+		fpAbstract = spec.Float == "fpuf"
 	}
 	return c
 }
@@ -112,10 +114,10 @@ func (c *Ctx) oblige(st *State, name, kind string, claim *Term, src string, pos 
 	}
 	if claim.IsTrue() {
 		// still count it: trivially discharged
-		c.Obs = append(c.Obs, &Obligation{Name: name, Kind: kind, Fn: fnDisplay(c.Fn), Claim: claim, Src: src, Pos: c.Eng.posStr(pos), Path: st.PathID})
+		c.Obs = append(c.Obs, &Obligation{Name: name, Kind: kind, Fn: fnDisplay(c.Fn), Claim: claim, Src: src, Pos: c.Eng.posStr(pos), Path: st.PathID, Ctx: c})
 		return
 	}
-	c.Obs = append(c.Obs, &Obligation{Name: name, Kind: kind, Fn: fnDisplay(c.Fn), PC: append([]*Term(nil), st.PC...), Claim: claim, Src: src, Pos: c.Eng.posStr(pos), Path: st.PathID})
+	c.Obs = append(c.Obs, &Obligation{Name: name, Kind: kind, Fn: fnDisplay(c.Fn), PC: append([]*Term(nil), st.PC...), Claim: claim, Src: src, Pos: c.Eng.posStr(pos), Path: st.PathID, Ctx: c})
 }
 
 // safety obligation attached to an instruction
@@ -446,6 +448,7 @@ func (c *Ctx) havocWrites(st *State, ws *WriteSet) {
 // discoverWrites runs the loop body in discovery mode until the write set is stable.
 func (c *Ctx) discoverWrites(st *State, fr *Frame, loop *Loop, phis []*ssa.Phi) *WriteSet {
 	acc := newWriteSet()
+	acc.MaxID = c.nobj
 	for round := 0; round < 4; round++ {
 		probe := st.clone()
 		probe.Disc = newWriteSet()
@@ -720,6 +723,9 @@ func (c *Ctx) materialise(st *State, p PtrV) *Object {
 	c.Assumed["distinct symbolic pointers (parameters / loaded pointer fields) do not alias"] = true
 	st.SymObjs[p.Sym.id] = o
 	c.initVals[o] = st.Mem[o]
+	if c.InitSym != nil {
+		c.InitSym[p.Sym.id] = o
+	}
 	return o
 }
 
@@ -933,16 +939,39 @@ func (c *Ctx) binop(st *State, in ssa.Instruction, op token.Token, xv, yv Value,
 		}
 		return IntRem(x, y)
 	case token.AND:
-		// x & (2^k - 1) for non-negative x == x mod 2^k
-		if isNum(y) && y.Val.Sign() >= 0 {
-			m := new(big.Int).Add(y.Val, big.NewInt(1))
-			if m.BitLen() > 0 && new(big.Int).And(m, y.Val).Sign() == 0 {
-				// two's complement: x & mask == x mod 2^k also for negative x (floor mod)
-				return IntMod(x, m)
-			}
-		}
 		if isNum(x) && isNum(y) {
 			return IntBig(new(big.Int).And(x.Val, y.Val))
+		}
+		if isNum(x) && !isNum(y) {
+			x, y = y, x
+		}
+		// x & mask with a non-negative constant mask: sum over maximal runs of set bits [lo,hi) of
+		// ((x div 2^lo) mod 2^(hi-lo)) * 2^lo   (floor div/mod = infinite two's complement)
+		if isNum(y) && y.Val.Sign() >= 0 && y.Val.BitLen() <= 64 {
+			res := IntC(0)
+			m := y.Val
+			i := 0
+			for i < m.BitLen() {
+				if m.Bit(i) == 0 {
+					i++
+					continue
+				}
+				lo := i
+				for i < m.BitLen() && m.Bit(i) == 1 {
+					i++
+				}
+				w := i - lo
+				part := x
+				if lo > 0 {
+					part = mk("div", IntSort, x, IntBig(new(big.Int).Lsh(big.NewInt(1), uint(lo))))
+				}
+				part = IntMod(part, new(big.Int).Lsh(big.NewInt(1), uint(w)))
+				if lo > 0 {
+					part = Arith("*", part, IntBig(new(big.Int).Lsh(big.NewInt(1), uint(lo))))
+				}
+				res = Arith("+", res, part)
+			}
+			return res
 		}
 	case token.OR:
 		if isNum(x) && isNum(y) {
@@ -993,9 +1022,9 @@ func (c *Ctx) convert(st *State, in ssa.Instruction, v Value, from, to types.Typ
 		t := v.(*Term)
 		if c.FP {
 			if t.Sort.Kind == SBV {
-				return mk("sbv2fp", FPSort, BVResize(t, 64, !isUnsigned(from)))
+				return I2FP(BVResize(t, 64, !isUnsigned(from)))
 			}
-			return mk("i2fp", FPSort, t)
+			return I2FP(t)
 		}
 		if t.Sort.Kind == SInt {
 			if isNum(t) {
